@@ -6,11 +6,14 @@
   is_negative report the sign of the denoted value, with zero neither positive nor negative."
 
   All theorems: every digit width `w ≥ 1` (`signum`: `w ≥ 2`), every digit count `n ≥ 1`, all
-  well-formed `a`, `b`.  `U` = denoted natural (unsigned types), `S` = denoted two's-complement
+  well-formed `a`, `b`.  The `Ord` trait forms have their own statements (`*_ord_*`), the order axioms
+  (total, antisymmetric on digit arrays, transitive, `cmp` antisymmetric) are `*_total_order`, the
+  hash-table view of Hash/Eq coherence is `*_hash_lookup_iff`.  `U` = denoted natural (unsigned types), `S` = denoted two's-complement
   integer (signed types).  Since `cmp` *is* `compare` on the denoted integers, totality,
   antisymmetry, transitivity and consistency with arithmetic are inherited from `Nat` / `Int`.
 -/
 import Bnum.Lemmas.Cmp
+import Bnum.Lemmas.C07Extra
 namespace Bnum.C07
 open Bnum
 
@@ -271,6 +274,160 @@ theorem i_clamp_spec {w n : Nat} (hw : 1 ≤ w) (hn : 1 ≤ n) {a mn mx : List N
 example : 1 ≤ 8 ∧ 1 ≤ 2 ∧ WF 8 2 [0xff, 0x01] ∧ WF 8 2 [0x00, 0x81] ∧ WF 8 2 [0x00, 0x02] ∧
     S 8 [0x00, 0x81] ≤ S 8 [0x00, 0x02] := by decide
 
+/-! ### the `Ord` trait methods (`Ord::cmp`, `Ord::max`, `Ord::min`, `Ord::clamp`): `{buint,bint}/cmp.rs`
+    override all four to forward to the inherent functions, so they too compare the denoted integers -/
+
+/-- the four `Ord` methods are the inherent functions, for any `cmp`. -/
+theorem ord_forward (cmp : List Nat → List Nat → Ordering) (a b c : List Nat) :
+    Traits.ordCmp cmp a b = cmp a b ∧ Traits.ordMax cmp a b = CmpImpl.max cmp a b ∧
+    Traits.ordMin cmp a b = CmpImpl.min cmp a b ∧
+    Traits.ordClamp cmp a b c = CmpImpl.clamp cmp a b c := ⟨rfl, rfl, rfl, rfl⟩
+
+/-- `Ord::cmp / max / min` on `BUint`: value comparison, and the operand returned is the one the
+    value order selects (ties: `max` returns the second, `min` the first — as for primitives). -/
+theorem u_ord_spec {w n : Nat} {a b : List Nat} (ha : WF w n a) (hb : WF w n b) :
+    Traits.ordCmp UI.cmp a b = compare (U w a) (U w b) ∧
+    Traits.ordMax UI.cmp a b = (if U w a ≤ U w b then b else a) ∧
+    U w (Traits.ordMax UI.cmp a b) = max (U w a) (U w b) ∧
+    Traits.ordMin UI.cmp a b = (if U w a ≤ U w b then a else b) ∧
+    U w (Traits.ordMin UI.cmp a b) = min (U w a) (U w b) :=
+  ⟨u_cmp_spec ha hb, (u_max_spec ha hb).1, (u_max_spec ha hb).2, (u_min_spec ha hb).1,
+    (u_min_spec ha hb).2⟩
+example : WF 8 2 [0xff, 0x01] ∧ WF 8 2 [0x00, 0x02] := by decide
+
+theorem i_ord_spec {w n : Nat} (hw : 1 ≤ w) (hn : 1 ≤ n) {a b : List Nat}
+    (ha : WF w n a) (hb : WF w n b) :
+    Traits.ordCmp (II.cmp w) a b = compare (S w a) (S w b) ∧
+    Traits.ordMax (II.cmp w) a b = (if S w a ≤ S w b then b else a) ∧
+    S w (Traits.ordMax (II.cmp w) a b) = max (S w a) (S w b) ∧
+    Traits.ordMin (II.cmp w) a b = (if S w a ≤ S w b then a else b) ∧
+    S w (Traits.ordMin (II.cmp w) a b) = min (S w a) (S w b) :=
+  ⟨i_cmp_spec hw hn ha hb, (i_max_spec hw hn ha hb).1, (i_max_spec hw hn ha hb).2,
+    (i_min_spec hw hn ha hb).1, (i_min_spec hw hn ha hb).2⟩
+example : 1 ≤ 8 ∧ 1 ≤ 2 ∧ WF 8 2 [0xff, 0x80] ∧ WF 8 2 [0x00, 0x7f] := by decide
+
+/-- `Ord::clamp` on `BUint`: panics exactly when `min > max`, otherwise the mathematical clamp. -/
+theorem u_ord_clamp_spec {w n : Nat} {a mn mx : List Nat}
+    (ha : WF w n a) (hmn : WF w n mn) (hmx : WF w n mx) :
+    (Traits.ordClamp UI.cmp a mn mx = .panic ↔ U w mx < U w mn) ∧
+    (U w mn ≤ U w mx → ∃ r, Traits.ordClamp UI.cmp a mn mx = .ok r ∧ WF w n r ∧
+      U w r = max (U w mn) (min (U w mx) (U w a))) := u_clamp_spec ha hmn hmx
+example : WF 8 2 [0xff, 0x01] ∧ WF 8 2 [0x00, 0x01] ∧ WF 8 2 [0x00, 0x02] ∧
+    U 8 [0x00, 0x01] ≤ U 8 [0x00, 0x02] := by decide
+
+theorem i_ord_clamp_spec {w n : Nat} (hw : 1 ≤ w) (hn : 1 ≤ n) {a mn mx : List Nat}
+    (ha : WF w n a) (hmn : WF w n mn) (hmx : WF w n mx) :
+    (Traits.ordClamp (II.cmp w) a mn mx = .panic ↔ S w mx < S w mn) ∧
+    (S w mn ≤ S w mx → ∃ r, Traits.ordClamp (II.cmp w) a mn mx = .ok r ∧ WF w n r ∧
+      S w r = max (S w mn) (min (S w mx) (S w a))) := i_clamp_spec hw hn ha hmn hmx
+example : 1 ≤ 8 ∧ 1 ≤ 2 ∧ WF 8 2 [0xff, 0x01] ∧ WF 8 2 [0x00, 0x81] ∧ WF 8 2 [0x00, 0x02] ∧
+    S 8 [0x00, 0x81] ≤ S 8 [0x00, 0x02] := by decide
+
+/-- `clamp` returns one of its three operands unchanged (never a fresh value): `a` itself when it is
+    within the bounds, else the violated bound. -/
+theorem u_clamp_operand {w n : Nat} {a mn mx : List Nat}
+    (ha : WF w n a) (hmn : WF w n mn) (hmx : WF w n mx) (hle : U w mn ≤ U w mx) :
+    CmpImpl.clamp UI.cmp a mn mx =
+      .ok (if U w a < U w mn then mn else if U w mx < U w a then mx else a) := by
+  obtain ⟨r, hr, hwf, hv⟩ := (u_clamp_spec ha hmn hmx).2 hle
+  rw [hr]; congr 1
+  apply U_injective hwf (by split_ifs <;> assumption)
+  rw [hv]; split_ifs <;> omega
+example : WF 8 2 [0xff, 0x01] ∧ WF 8 2 [0x00, 0x01] ∧ WF 8 2 [0x00, 0x02] ∧
+    U 8 [0x00, 0x01] ≤ U 8 [0x00, 0x02] := by decide
+
+theorem i_clamp_operand {w n : Nat} (hw : 1 ≤ w) (hn : 1 ≤ n) {a mn mx : List Nat}
+    (ha : WF w n a) (hmn : WF w n mn) (hmx : WF w n mx) (hle : S w mn ≤ S w mx) :
+    CmpImpl.clamp (II.cmp w) a mn mx =
+      .ok (if S w a < S w mn then mn else if S w mx < S w a then mx else a) := by
+  obtain ⟨r, hr, hwf, hv⟩ := (i_clamp_spec hw hn ha hmn hmx).2 hle
+  rw [hr]; congr 1
+  apply Cmp.S_injective hwf (by split_ifs <;> assumption)
+  rw [hv]; split_ifs <;> omega
+example : 1 ≤ 8 ∧ 1 ≤ 2 ∧ WF 8 2 [0xff, 0x01] ∧ WF 8 2 [0x00, 0x81] ∧ WF 8 2 [0x00, 0x02] ∧
+    S 8 [0x00, 0x81] ≤ S 8 [0x00, 0x02] := by decide
+
+/-! ### "so the order is total and consistent with arithmetic": the order axioms, stated on the
+    functions themselves (`le` = `<=`, `lt` = `<` by `op_order_eq`) -/
+
+/-- `BUint`: `<=` is total, antisymmetric *on digit arrays*, transitive; `<` is the strict part;
+    `cmp` is antisymmetric (`b.cmp(a) = a.cmp(b).reverse()`) and `Equal` exactly on identical arrays. -/
+theorem u_total_order {w n : Nat} {a b c : List Nat} (ha : WF w n a) (hb : WF w n b)
+    (hc : WF w n c) :
+    (CmpImpl.le UI.cmp a b = true ∨ CmpImpl.le UI.cmp b a = true) ∧
+    (CmpImpl.le UI.cmp a b = true → CmpImpl.le UI.cmp b a = true → a = b) ∧
+    (CmpImpl.le UI.cmp a b = true → CmpImpl.le UI.cmp b c = true → CmpImpl.le UI.cmp a c = true) ∧
+    (CmpImpl.lt UI.cmp a b = true ↔ CmpImpl.le UI.cmp b a = false) ∧
+    UI.cmp b a = (UI.cmp a b).swap ∧
+    (UI.cmp a b = .eq ↔ a = b) := by
+  have hab := (u_order ha hb).2.1
+  have hba := (u_order hb ha).2.1
+  have hbc := (u_order hb hc).2.1
+  have hac := (u_order ha hc).2.1
+  have hsw : UI.cmp b a = (UI.cmp a b).swap := by
+    rw [UI.cmp_spec ha hb, UI.cmp_spec hb ha]; exact C07X.nat_compare_swap _ _
+  refine ⟨?_, ?_, ?_, C07X.lt_iff_not_le _ _ _ hsw, hsw, ?_⟩
+  · rcases Nat.le_total (U w a) (U w b) with h | h
+    · exact Or.inl (hab.mpr h)
+    · exact Or.inr (hba.mpr h)
+  · intro h1 h2; exact U_injective ha hb (Nat.le_antisymm (hab.mp h1) (hba.mp h2))
+  · intro h1 h2; exact hac.mpr (Nat.le_trans (hab.mp h1) (hbc.mp h2))
+  · rw [UI.cmp_spec ha hb, Nat.compare_eq_eq]
+    exact ⟨U_injective ha hb, fun h => by rw [h]⟩
+example : WF 8 2 [0xff, 0x01] ∧ WF 8 2 [0x00, 0x02] ∧ WF 8 2 [0x01, 0x02] := by decide
+
+theorem i_total_order {w n : Nat} (hw : 1 ≤ w) (hn : 1 ≤ n) {a b c : List Nat}
+    (ha : WF w n a) (hb : WF w n b) (hc : WF w n c) :
+    (CmpImpl.le (II.cmp w) a b = true ∨ CmpImpl.le (II.cmp w) b a = true) ∧
+    (CmpImpl.le (II.cmp w) a b = true → CmpImpl.le (II.cmp w) b a = true → a = b) ∧
+    (CmpImpl.le (II.cmp w) a b = true → CmpImpl.le (II.cmp w) b c = true →
+      CmpImpl.le (II.cmp w) a c = true) ∧
+    (CmpImpl.lt (II.cmp w) a b = true ↔ CmpImpl.le (II.cmp w) b a = false) ∧
+    II.cmp w b a = (II.cmp w a b).swap ∧
+    (II.cmp w a b = .eq ↔ a = b) := by
+  have hab := (i_order hw hn ha hb).2.1
+  have hba := (i_order hw hn hb ha).2.1
+  have hbc := (i_order hw hn hb hc).2.1
+  have hac := (i_order hw hn ha hc).2.1
+  have hsw : II.cmp w b a = (II.cmp w a b).swap := by
+    rw [II.cmp_spec hw hn ha hb, II.cmp_spec hw hn hb ha]; exact C07X.int_compare_swap _ _
+  refine ⟨?_, ?_, ?_, C07X.lt_iff_not_le _ _ _ hsw, hsw, ?_⟩
+  · rcases Int.le_total (S w a) (S w b) with h | h
+    · exact Or.inl (hab.mpr h)
+    · exact Or.inr (hba.mpr h)
+  · intro h1 h2; exact Cmp.S_injective ha hb (Int.le_antisymm (hab.mp h1) (hba.mp h2))
+  · intro h1 h2; exact hac.mpr (Int.le_trans (hab.mp h1) (hbc.mp h2))
+  · rw [II.cmp_spec hw hn ha hb, Int.compare_eq_eq]
+    exact ⟨Cmp.S_injective ha hb, fun h => by rw [h]⟩
+example : 1 ≤ 8 ∧ 1 ≤ 2 ∧ WF 8 2 [0xff, 0x80] ∧ WF 8 2 [0x00, 0x7f] ∧ WF 8 2 [0xff, 0xff] := by
+  decide
+
+/-! ### Hash / Eq coherence as a hash table sees it -/
+
+/-- A `HashSet`/`HashMap` lookup of `b` finds the stored `a` (hashes agree and `==` holds) exactly
+    when the values are equal — for every hasher `h` (any function of the digit array). -/
+theorem u_hash_lookup_iff {w n : Nat} {α : Type} [BEq α] [LawfulBEq α] (h : List Nat → α)
+    {a b : List Nat} (ha : WF w n a) (hb : WF w n b) :
+    (Traits.hashWith h a == Traits.hashWith h b && Traits.opEq a b) = true ↔ U w a = U w b := by
+  rw [Bool.and_eq_true, Traits.opEq_iff]
+  constructor
+  · rintro ⟨_, rfl⟩; rfl
+  · intro hv
+    have e := U_injective ha hb hv
+    subst e; exact ⟨beq_self_eq_true _, rfl⟩
+example : WF 8 2 [0xff, 0x01] ∧ WF 8 2 [0xff, 0x01] := by decide
+
+theorem i_hash_lookup_iff {w n : Nat} {α : Type} [BEq α] [LawfulBEq α] (h : List Nat → α)
+    {a b : List Nat} (ha : WF w n a) (hb : WF w n b) :
+    (Traits.hashWith h a == Traits.hashWith h b && Traits.opEq a b) = true ↔ S w a = S w b := by
+  rw [Bool.and_eq_true, Traits.opEq_iff]
+  constructor
+  · rintro ⟨_, rfl⟩; rfl
+  · intro hv
+    have e := Cmp.S_injective ha hb hv
+    subst e; exact ⟨beq_self_eq_true _, rfl⟩
+example : WF 8 2 [0xff, 0x81] ∧ WF 8 2 [0xff, 0x81] := by decide
+
 /-! ### sign -/
 
 /-- `is_negative` ⇔ value `< 0`. -/
@@ -302,5 +459,30 @@ theorem signum_spec {w n : Nat} (hw : 2 ≤ w) (hn : 1 ≤ n) {a : List Nat} (ha
     S w (II.signum w a) = if S w a < 0 then -1 else if S w a = 0 then 0 else 1 :=
   II.signum_spec hw hn ha
 example : 2 ≤ 8 ∧ 1 ≤ 2 ∧ WF 8 2 [0x00, 0x80] := by decide
+
+/-- exactly one of negative / zero / positive, and the two predicates say which. -/
+theorem sign_trichotomy {w n : Nat} (hw : 1 ≤ w) (hn : 1 ≤ n) {a : List Nat} (ha : WF w n a) :
+    (S w a < 0 ∧ isNegative w a = true ∧ II.isPositive w a = false) ∨
+    (S w a = 0 ∧ isNegative w a = false ∧ II.isPositive w a = false) ∨
+    (0 < S w a ∧ isNegative w a = false ∧ II.isPositive w a = true) := by
+  have h1 := II.isPositive_iff hw hn ha
+  have h2 := isNegative_iff' hw hn ha
+  cases hp : II.isPositive w a <;> cases hq : isNegative w a <;> rw [hp] at h1 <;> rw [hq] at h2 <;>
+    simp at h1 h2 ⊢ <;> omega
+example : 1 ≤ 8 ∧ 1 ≤ 3 ∧ WF 8 3 [0x00, 0x01, 0x00] := by decide
+
+/-- `signum` agrees with the two predicates: it is `-1` / `1` / `0` exactly when the value is
+    negative / positive / zero. -/
+theorem signum_iff {w n : Nat} (hw : 2 ≤ w) (hn : 1 ≤ n) {a : List Nat} (ha : WF w n a) :
+    (S w (II.signum w a) = -1 ↔ isNegative w a = true) ∧
+    (S w (II.signum w a) = 1 ↔ II.isPositive w a = true) ∧
+    (S w (II.signum w a) = 0 ↔ S w a = 0) := by
+  have hs := (II.signum_spec hw hn ha).2
+  have h1 := II.isPositive_iff (by omega) hn ha
+  have h2 := isNegative_iff' (by omega) hn ha
+  rw [h1, h2, hs]
+  refine ⟨?_, ?_, ?_⟩ <;> split_ifs <;> constructor <;> intro _ <;>
+    first | omega | contradiction
+example : 2 ≤ 8 ∧ 1 ≤ 3 ∧ WF 8 3 [0x00, 0x01, 0x00] := by decide
 
 end Bnum.C07
